@@ -45,6 +45,15 @@ CHECKS = {
              "text emitted for Einsum i after compiling Einsums j..i-1 must equal its stand-alone compilation up to temporary numbering "
              "(plain and spacetime modes).",
         design="4/C05"),
+    "C06": dict(
+        technique="property-based testing (Hypothesis): generated specifications of every family x compilation mode; oracle = ast.parse + flow-sensitive definite-assignment analysis of the emitted text against the user-supplied name set derived from the specification alone",
+        text="Generated-input search over all specification families (plain, shape/occupancy partitioning, flattening, affine, cascades) in "
+             "plain and spacetime mode plus every shipped YAML in plain and metrics mode; each emitted program must parse and a static, "
+             "zero-trip-aware definite-assignment analysis must find every read name bound on every path or supplied by the user "
+             "(names derived from the specification value, never from the compiler). Two root causes found on the unchanged tree are "
+             "known findings with excluded classes.",
+        design="4/C06",
+        note="Trusted base: vf/pyscope.py (definite-assignment analysis over Python's own ast), the supplied-name rule stated in the property, Hypothesis, CPython."),
 }
 
 NOT_APPLICABLE = {}
